@@ -350,6 +350,9 @@ func Drive(o DriveOpts) int {
 					})
 				}
 				os.RemoveAll(cs)
+				if kp := os.Getenv("VERIF_KEEP_CHILD_LOG"); kp != "" {
+					os.WriteFile(fmt.Sprintf("%s.%d", kp, b), logb, 0644)
+				}
 				if werr == nil && open < 0 {
 					os.Remove(logp)
 					os.Remove(out)
